@@ -21,6 +21,8 @@ pub mod c05_models;
 pub mod c01;
 #[cfg(any(feature = "p02"))]
 pub mod c02;
+#[cfg(any(feature = "p02"))]
+pub mod pipe;
 #[cfg(any(feature = "p03"))]
 pub mod c03;
 #[cfg(any(feature = "p04" , feature = "p07"))]
